@@ -34,6 +34,14 @@ fn http(id: String) -> impl Fn(Request, Arc<()>) -> std::future::Ready<Response>
     move |_req: Request, _st: Arc<()>| std::future::ready(Response::new(StatusCode::OK, id.as_bytes()))
 }
 
+fn http_stateless(id: String) -> impl Fn(Request) -> std::future::Ready<Response> + Send + Sync + 'static {
+    move |_req: Request| std::future::ready(Response::new(StatusCode::OK, id.as_bytes()))
+}
+
+fn http_path_aware(id: String, reg: &'static str) -> impl Fn(Request, Arc<()>, &'static str) -> std::future::Ready<Response> + Send + Sync + 'static {
+    move |_req: Request, _st: Arc<()>, route: &'static str| std::future::ready(Response::new(StatusCode::OK, path_aware_answer(&id, reg, route)))
+}
+
 fn wsh(id: String) -> impl Fn(Request, Stream, Arc<()>) -> Pin<Box<dyn std::future::Future<Output = ()> + Send>> + Send + Sync + 'static {
     move |_req: Request, mut stream: Stream, _st: Arc<()>| {
         let id = id.clone();
@@ -46,7 +54,11 @@ fn wsh(id: String) -> impl Fn(Request, Stream, Arc<()>) -> Pin<Box<dyn std::futu
 fn build(cfg: &Cfg) -> App<()> {
     let mut app: App<()> = App::new_with_config(());
     for (i, r) in cfg.default_routes.iter().enumerate() {
-        app = app.with_route(r, http(format!("dr{}", i)));
+        app = match cfg.kind(i) {
+            0 => app.with_route(r, http(format!("dr{}", i))),
+            1 => app.with_stateless_route(r, http_stateless(format!("dr{}", i))),
+            _ => app.with_path_aware_route(leak(r), http_path_aware(format!("dr{}", i), leak(r))),
+        };
     }
     for (i, r) in cfg.default_ws.iter().enumerate() {
         app = app.with_websocket_route(r, wsh(format!("dw{}", i)));
@@ -54,7 +66,11 @@ fn build(cfg: &Cfg) -> App<()> {
     for (i, (h, routes, ws)) in cfg.hosts.iter().enumerate() {
         let mut s: SubApp<()> = SubApp::new();
         for (j, r) in routes.iter().enumerate() {
-            s = s.with_route(r, http(format!("h{}r{}", i, j)));
+            s = match cfg.kind(j) {
+                0 => s.with_route(r, http(format!("h{}r{}", i, j))),
+                1 => s.with_stateless_route(r, http_stateless(format!("h{}r{}", i, j))),
+                _ => s.with_path_aware_route(leak(r), http_path_aware(format!("h{}r{}", i, j), leak(r))),
+            };
         }
         for (j, r) in ws.iter().enumerate() {
             s = s.with_websocket_route(r, wsh(format!("h{}w{}", i, j)));
